@@ -7,6 +7,7 @@ import (
 	"os/exec"
 	"path/filepath"
 	"strings"
+	"sync"
 	"time"
 )
 
@@ -104,10 +105,10 @@ func runScript(cfg solverCfg, script string, n int, perQueryMs int) ([]string, s
 }
 
 type solveOpts struct {
-	quickMs  int
-	retryMs  int
+	quickMs   int
+	retryMs   int
 	portfolio bool
-	dumpDir  string
+	dumpDir   string
 }
 
 // solve discharges the obligations of one function.
@@ -139,7 +140,11 @@ func (e *Enc) solve(opt solveOpts) {
 		for _, o := range hob {
 			o.Verdict = "" // re-decided under the current set of candidate invariants
 		}
-		e.runBatch(solvers[0], hob, off, opt.quickMs)
+		hms := opt.quickMs
+		if hms > 5000 {
+			hms = 5000
+		}
+		e.runBatch(solvers[0], hob, off, hms)
 		changed := false
 		for _, o := range hob {
 			if o.Verdict != "unsat" {
@@ -189,7 +194,40 @@ func (e *Enc) solve(opt solveOpts) {
 	}
 }
 
+// runBatch splits large batches over several solver processes (the assertions are cheap to replay, the
+// queries are not).
 func (e *Enc) runBatch(cfg solverCfg, obs []*Oblig, off map[string]bool, ms int) {
+	const chunk = 48
+	if len(obs) <= chunk+16 {
+		e.runBatch1(cfg, obs, off, ms)
+		return
+	}
+	var wg sync.WaitGroup
+	var mu sync.Mutex
+	for i := 0; i < len(obs); i += chunk {
+		j := i + chunk
+		if j > len(obs) {
+			j = len(obs)
+		}
+		part := obs[i:j]
+		wg.Add(1)
+		go func() {
+			defer wg.Done()
+			solverSlots <- struct{}{}
+			defer func() { <-solverSlots }()
+			sub := &Enc{d: e.d, axioms: e.axioms, flags: e.flags, lines: e.lines}
+			sub.runBatch1(cfg, part, off, ms)
+			mu.Lock()
+			e.solverErrs = append(e.solverErrs, sub.solverErrs...)
+			mu.Unlock()
+		}()
+	}
+	wg.Wait()
+}
+
+var solverSlots = make(chan struct{}, 12)
+
+func (e *Enc) runBatch1(cfg solverCfg, obs []*Oblig, off map[string]bool, ms int) {
 	if len(obs) == 0 {
 		return
 	}
